@@ -261,6 +261,11 @@ type mkOuter struct {
 	Ar [3]uint16
 	S  mkNamedStr
 }
+type mkMapHolder struct {
+	N int8
+	M map[bool]int16
+	L []map[bool]uint8
+}
 type mkRec struct {
 	V    byte
 	Next *mkRec
@@ -307,25 +312,27 @@ var makeTypes = map[string]struct {
 	typ   reflect.Type
 	build func() *rapid.Generator[any]
 }{
-	"int":        {reflect.TypeOf(int(0)), func() *rapid.Generator[any] { return rapid.Make[int]().AsAny() }},
-	"uint64":     {reflect.TypeOf(uint64(0)), func() *rapid.Generator[any] { return rapid.Make[uint64]().AsAny() }},
-	"bool":       {reflect.TypeOf(false), func() *rapid.Generator[any] { return rapid.Make[bool]().AsAny() }},
-	"string":     {reflect.TypeOf(""), func() *rapid.Generator[any] { return rapid.Make[string]().AsAny() }},
-	"float64":    {reflect.TypeOf(float64(0)), func() *rapid.Generator[any] { return rapid.Make[float64]().AsAny() }},
-	"namedint":   {reflect.TypeOf(mkNamedInt(0)), func() *rapid.Generator[any] { return rapid.Make[mkNamedInt]().AsAny() }},
-	"namedstr":   {reflect.TypeOf(mkNamedStr("")), func() *rapid.Generator[any] { return rapid.Make[mkNamedStr]().AsAny() }},
-	"array":      {reflect.TypeOf([4]int8{}), func() *rapid.Generator[any] { return rapid.Make[[4]int8]().AsAny() }},
-	"array0":     {reflect.TypeOf([0]int{}), func() *rapid.Generator[any] { return rapid.Make[[0]int]().AsAny() }},
-	"slice":      {reflect.TypeOf([]uint16{}), func() *rapid.Generator[any] { return rapid.Make[[]uint16]().AsAny() }},
-	"slicenamed": {reflect.TypeOf([]mkNamedInt{}), func() *rapid.Generator[any] { return rapid.Make[[]mkNamedInt]().AsAny() }},
-	"map":        {reflect.TypeOf(map[int8]string{}), func() *rapid.Generator[any] { return rapid.Make[map[int8]string]().AsAny() }},
-	"mapbool":    {reflect.TypeOf(map[bool]int{}), func() *rapid.Generator[any] { return rapid.Make[map[bool]int]().AsAny() }},
-	"ptr":        {reflect.TypeOf((*int)(nil)), func() *rapid.Generator[any] { return rapid.Make[*int]().AsAny() }},
-	"ptrptr":     {reflect.TypeOf((**uint8)(nil)), func() *rapid.Generator[any] { return rapid.Make[**uint8]().AsAny() }},
-	"struct":     {reflect.TypeOf(mkInner{}), func() *rapid.Generator[any] { return rapid.Make[mkInner]().AsAny() }},
-	"struct0":    {reflect.TypeOf(struct{}{}), func() *rapid.Generator[any] { return rapid.Make[struct{}]().AsAny() }},
-	"nested":     {reflect.TypeOf(mkOuter{}), func() *rapid.Generator[any] { return rapid.Make[mkOuter]().AsAny() }},
-	"rec":        {reflect.TypeOf(mkRec{}), func() *rapid.Generator[any] { return rapid.Make[mkRec]().AsAny() }},
+	"int":           {reflect.TypeOf(int(0)), func() *rapid.Generator[any] { return rapid.Make[int]().AsAny() }},
+	"uint64":        {reflect.TypeOf(uint64(0)), func() *rapid.Generator[any] { return rapid.Make[uint64]().AsAny() }},
+	"bool":          {reflect.TypeOf(false), func() *rapid.Generator[any] { return rapid.Make[bool]().AsAny() }},
+	"string":        {reflect.TypeOf(""), func() *rapid.Generator[any] { return rapid.Make[string]().AsAny() }},
+	"float64":       {reflect.TypeOf(float64(0)), func() *rapid.Generator[any] { return rapid.Make[float64]().AsAny() }},
+	"namedint":      {reflect.TypeOf(mkNamedInt(0)), func() *rapid.Generator[any] { return rapid.Make[mkNamedInt]().AsAny() }},
+	"namedstr":      {reflect.TypeOf(mkNamedStr("")), func() *rapid.Generator[any] { return rapid.Make[mkNamedStr]().AsAny() }},
+	"array":         {reflect.TypeOf([4]int8{}), func() *rapid.Generator[any] { return rapid.Make[[4]int8]().AsAny() }},
+	"array0":        {reflect.TypeOf([0]int{}), func() *rapid.Generator[any] { return rapid.Make[[0]int]().AsAny() }},
+	"slice":         {reflect.TypeOf([]uint16{}), func() *rapid.Generator[any] { return rapid.Make[[]uint16]().AsAny() }},
+	"slicenamed":    {reflect.TypeOf([]mkNamedInt{}), func() *rapid.Generator[any] { return rapid.Make[[]mkNamedInt]().AsAny() }},
+	"map":           {reflect.TypeOf(map[int8]string{}), func() *rapid.Generator[any] { return rapid.Make[map[int8]string]().AsAny() }},
+	"mapbool":       {reflect.TypeOf(map[bool]int{}), func() *rapid.Generator[any] { return rapid.Make[map[bool]int]().AsAny() }},
+	"mapboolstr":    {reflect.TypeOf(map[bool]string{}), func() *rapid.Generator[any] { return rapid.Make[map[bool]string]().AsAny() }},
+	"structmapbool": {reflect.TypeOf(mkMapHolder{}), func() *rapid.Generator[any] { return rapid.Make[mkMapHolder]().AsAny() }},
+	"ptr":           {reflect.TypeOf((*int)(nil)), func() *rapid.Generator[any] { return rapid.Make[*int]().AsAny() }},
+	"ptrptr":        {reflect.TypeOf((**uint8)(nil)), func() *rapid.Generator[any] { return rapid.Make[**uint8]().AsAny() }},
+	"struct":        {reflect.TypeOf(mkInner{}), func() *rapid.Generator[any] { return rapid.Make[mkInner]().AsAny() }},
+	"struct0":       {reflect.TypeOf(struct{}{}), func() *rapid.Generator[any] { return rapid.Make[struct{}]().AsAny() }},
+	"nested":        {reflect.TypeOf(mkOuter{}), func() *rapid.Generator[any] { return rapid.Make[mkOuter]().AsAny() }},
+	"rec":           {reflect.TypeOf(mkRec{}), func() *rapid.Generator[any] { return rapid.Make[mkRec]().AsAny() }},
 }
 
 var makeTypeNames = func() []string {
@@ -336,6 +343,10 @@ var makeTypeNames = func() []string {
 	sort.Strings(n)
 	return n
 }()
+
+// makeFlatTypeNames: the types of the Make menu without pointers (the Go-syntax text of their values does not
+// contain addresses, so values of different runs can be compared as text)
+var makeFlatTypeNames = []string{"int", "uint64", "bool", "string", "float64", "namedint", "namedstr", "array", "array0", "slice", "slicenamed", "map", "mapbool", "mapboolstr", "structmapbool", "struct", "struct0"}
 
 // Build constructs the generator of the library under test described by s.
 func (s *GenSpec) Build(env *BuildEnv) *rapid.Generator[any] {
@@ -1050,7 +1061,25 @@ func Measure(v any) int64 {
 			return math.MaxInt64
 		}
 		return int64(u)
-	case reflect.Slice, reflect.Map, reflect.String, reflect.Array:
+	case reflect.Map:
+		// typed maps (Make): the values count as well, so that conditions of generated programs can depend on what
+		// is stored under a key and not only on the number of keys
+		m := int64(rv.Len())
+		for it := rv.MapRange(); it.Next(); {
+			if it.Value().CanInterface() {
+				m += Measure(it.Value().Interface()) % 1000
+			}
+		}
+		return m
+	case reflect.Struct:
+		var m int64
+		for i := 0; i < rv.NumField(); i++ {
+			if f := rv.Field(i); f.CanInterface() && f.Kind() != reflect.Ptr {
+				m += Measure(f.Interface()) % 1000
+			}
+		}
+		return m
+	case reflect.Slice, reflect.String, reflect.Array:
 		return int64(rv.Len())
 	case reflect.Bool:
 		if rv.Bool() {
